@@ -22,6 +22,10 @@ structure Dialect where
   multiline : Bool
   deriving Repr, DecidableEq, Inhabited
 
+/-- the ES5 reading and the Go reading under the same i / m flags -/
+def dE (i mm : Bool) : Dialect := { es5 := true, icase := i, multiline := mm }
+def dG (i mm : Bool) : Dialect := { es5 := false, icase := i, multiline := mm }
+
 /-! ## denotation of atoms -/
 
 /-- ES5 §7.3 LineTerminator -/
@@ -70,6 +74,8 @@ def foldSet (d : Dialect) (c : Nat) : List Nat :=
   else if c = 0xFF then [c, 0x178]
   else if c = 0x178 then [c, 0xFF]
   else [c]
+
+def chTest (sp : CharSp) (c : Nat) : Bool := c = sp.val
 
 /-- does `c` satisfy the set `test`, taking the `i` flag into account -/
 def charIn (d : Dialect) (test : Nat → Bool) (c : Nat) : Bool :=
@@ -166,7 +172,7 @@ def repLoop (es5 greedy : Bool) (f : MS → List MS) : Nat → Nat → Option Na
 /-- all ways `r` matches `s` from state `x`, best first.  `gi` = index of r's first group. -/
 def m (d : Dialect) (s : List Nat) : Re → Nat → MS → List MS
   | .empty, _, x => [x]
-  | .ch sp, _, x => stepChar s (charIn d (fun c => c = sp.val)) x
+  | .ch sp, _, x => stepChar s (charIn d (chTest sp)) x
   | .dot, _, x => stepChar s (dotTest d) x
   | .cls k, _, x => stepChar s (clsTestI d k) x
   | .set neg items, _, x => stepChar s (fun c => itemsTest d items c != neg) x
@@ -191,7 +197,7 @@ def nullable : Re → Bool
   | .group r | .ncgroup r => nullable r
   | .seq a b => nullable a && nullable b
   | .alt a b => nullable a || nullable b
-  | .quant r q _ => q.min == 0 || nullable r
+  | .quant r q _ => q.min == 0 || q.max == some 0 || nullable r
   | .look _ _ => true
   | _ => false
 
